@@ -121,6 +121,9 @@ func c13Scenarios() []goxScenario {
 		// a cursor of the enclosing scope fetched by a user function that runs once per record on every worker
 		goxScenario{Name: "outer-cursor-fetched-in-user-function-per-row", Files: map[string]string{"t.csv": big},
 			SQL: "DECLARE cur CURSOR FOR SELECT a FROM t; OPEN cur; DECLARE nxt FUNCTION (@x) AS BEGIN VAR @v; FETCH cur INTO @v; RETURN @v; END; SELECT COUNT(*) FROM (SELECT nxt(a) AS n FROM t) s WHERE n IS NOT NULL;", CPU: 3},
+		// ... and asked for its status (open, in range, count) by the other workers meanwhile
+		goxScenario{Name: "outer-cursor-status-in-user-function-per-row", FreeRows: 800, Files: map[string]string{"t.csv": big},
+			SQL: "DECLARE cur CURSOR FOR SELECT a FROM t; OPEN cur; DECLARE nxt FUNCTION (@x) AS BEGIN VAR @v; FETCH cur INTO @v; IF CURSOR cur IS IN RANGE THEN RETURN CURSOR cur COUNT + @v; END IF; IF CURSOR cur IS OPEN THEN RETURN -1; END IF; RETURN -2; END; SELECT COUNT(*) FROM (SELECT nxt(a) AS n FROM t) s WHERE n IS NOT NULL;", CPU: 3},
 		// the parser called from every worker: a user function that EXECUTEs a text, evaluated per record
 		goxScenario{Name: "execute-in-user-function-per-row", FreeRows: 800, Files: map[string]string{"t.csv": big},
 			SQL: "DECLARE ex FUNCTION (@x) AS BEGIN VAR @r := 0; EXECUTE 'SELECT w' || @x || ' + 1 INTO @r FROM (SELECT ' || @x || ' AS w' || @x || ') AS s' || @x || ';'; RETURN @r; END; SELECT a, ex(a) FROM t;", CPU: 3},
